@@ -6,7 +6,7 @@ from harness.props._common import run_eval, replay_eval
 from harness.props.c05 import sgates_to_coq, pat_of
 
 PROPS_FILE = "P_C15"
-COQ_TARGETS = ["CaseLib", "CaseLibMcx", "IrProps"]
+COQ_TARGETS = ["CaseLib", "CaseLibMcx", "IrProps", "IrPropsRot", "TopDownModel"]
 RULE = ("correspondence on the IR for McxVchainDirty / LinearMcx (k = 1..10/20): flatten(definition.inverse()) = IrProps.sinv_list(model), "
         "the model instance is well-formed (premise of C15_inverse_*), and appending the definition on a shuffled ordered subset of a "
         "larger host circuit yields map (relabel sigma) (model) with every other host qubit unmentioned (premise of C15_spectator); direct "
@@ -63,8 +63,66 @@ def correspondence(ctx):
     run_bool_cases(ctx, "c15_ir", HEADER, lines, cases, on_fail, shard=10)
 
 
+def rot_correspondence(ctx):
+    """TopDownInitialize on the rotation IR: inverse of the definition = pinv_list(model), well-formedness, placement."""
+    from fractions import Fraction
+    from qiskit import QuantumCircuit
+    from qclib.state_preparation import TopDownInitialize
+    from qclib.state_preparation.util.state_tree_preparation import Amplitude, state_decomposition
+    from qclib.state_preparation.util.angle_tree_preparation import create_angles_tree
+    from harness.flatten import coq_q
+    from harness.props import c01
+
+    def items_of(fl):
+        out = []
+        for name, qs, op in fl:
+            if name in ("ry", "rz"):
+                out.append(f"PRot {'RotY' if name == 'ry' else 'RotZ'} {coq_q(Fraction(float(op.params[0])))} {qs[0]}")
+            elif name == "cx":
+                out.append(f"PEnt EntCX {qs[0]} {qs[1]}")
+            else:
+                out.append("PEnt EntCZ 99999 99999")
+        return coq_list(out)
+    nmax = 4 if ctx.quick else 6
+    cases, lines = [], []
+    for n in range(1, nmax + 1):
+        for kind in ("complex", "sparse", "real", "basis", "product"):
+            v = c01.vector(ctx.rng, n, kind)
+            g = TopDownInitialize(v)
+            d = g.definition
+            at = create_angles_tree(state_decomposition(n, [Amplitude(i, a) for i, a in enumerate(v)]))
+            ys, zs = c01.levels_of(at)
+            yq = coq_list([coq_list([coq_q(Fraction(a)) for a in lv]) for lv in ys])
+            zq = coq_list([coq_list([coq_q(Fraction(a)) for a in lv]) for lv in zs])
+            model = f"(topdown_q {n}%nat {yq} {zq})"
+            fl_inv, _ = flatten(d.inverse())
+            host_n = n + 2
+            sigma = [int(x) for x in ctx.rng.permutation(host_n)[:n]]
+            host = QuantumCircuit(host_n)
+            host.append(d.to_instruction(), sigma)
+            fl_host, _ = flatten(host)
+            others = [q for q in range(host_n) if q not in sigma]
+            sl = coq_list([str(q) for q in sigma]) + "%nat"
+            case = {"class": "TopDownInitialize", "n": n, "family": kind, "placement": sigma}
+            cases.append(case)
+            ctx.count("corr:topdown_ir:" + kind, key=("td_ir", n, kind, v.tobytes(), tuple(sigma)), nontrivial=n >= 2,
+                      sample=dict(case, gates=len(fl_host)) if n == 3 else None)
+            eps = "(1 # 1000000000000)"
+            lines.append("(" + " && ".join([
+                f"list_eqb (pgate_close {eps}) (pinv_list {model}) {items_of(fl_inv)}",
+                f"forallb pwfb {model}",
+                f"list_eqb (pgate_close {eps}) (map (prelabel {sl}) {model}) {items_of(fl_host)}",
+                f"forallb (fun q => negb (existsb (pmentions q) (map (prelabel {sl}) {model}))) {coq_list([str(q) for q in others])}%nat",
+            ]) + ")")
+    hdr = ("From Coq Require Import List Bool Arith QArith.\nFrom QV Require Import Sem UcrModel TopDownModel CaseLib.\nImport ListNotations.\n")
+    run_bool_cases(ctx, "c15_rot", hdr, lines, cases,
+                   lambda c: ctx.mismatch("C15 correspondence: inverse / placement of TopDownInitialize's definition differs from the IR operations pinv_list / prelabel", c),
+                   shard=10)
+
+
 def run(ctx):
     correspondence(ctx)
+    rot_correspondence(ctx)
     run_eval(ctx, "C15")
 
 
@@ -77,7 +135,7 @@ def replay(ctx, case):
 
 
 MANIFEST = dict(
-    text='Proof (PARTIAL): on the circuit IR of the multi-controlled-X generators, the reversed list of per-gate inverses undoes a well-formed circuit in either order, and a circuit commutes with fixing the value of any qubit it does not mention (C15_inverse_right/left, C15_spectator). Tie: for McxVchainDirty/LinearMcx, flatten(definition.inverse()) = sinv_list(model), well-formedness of the instance, and flatten(host with the definition appended on a shuffled qubit list) = map relabel (model), compared inside Coq. Every other class, declared widths, inputs-untouched and determinism are evaluated.',
+    text='Proof (PARTIAL): on the circuit IR of the multi-controlled-X generators, the reversed list of per-gate inverses undoes a well-formed circuit in either order, and a circuit commutes with fixing the value of any qubit it does not mention (C15_inverse_right/left, C15_spectator). Tie: for McxVchainDirty/LinearMcx and TopDownInitialize, flatten(definition.inverse()) = inverse list of the model, well-formedness of the instance, and flatten(host with the definition appended on a shuffled qubit list) = map relabel (model), compared inside Coq. Every other class, declared widths, inputs-untouched and determinism are evaluated.',
     note="Modelled, not verified: Qiskit append/compose/inverse; all classes other than the mcx family; 'inputs untouched' and determinism are run-time checks only.",
     technique='Coq proof (per-gate inverse and commutation lemmas lifted over lists) + IR correspondence (vm_compute) + evaluation with spectators in superposition',
     design_ref='DESIGN.md section 4, C15')
